@@ -127,7 +127,10 @@ pub fn run(ctx: &Ctx) -> i32 {
         }
         // --- downstream observation
         let ind = m.energy_indicators();
-        let wp = ind.props.wincons.get(&uid("winc")).unwrap();
+        let Some(wp) = ind.props.wincons.get(&uid("winc")) else {
+            ctx.violation("props.wincons:missing-entry", "the indicators carry no entry for the window construction of the model", case());
+            return;
+        };
         if wp.u_value != u {
             ctx.violation("props.wincons.u_value:differs", &format!("props {:?} vs direct {:?}", wp.u_value, u), case());
         }
